@@ -20,7 +20,7 @@ def gen_cases(tier, seed):
 
 def main(tier):
     chk = Check("C01", tier)
-    chk.prove(checker=(tier == "thorough"))
+    chk.prove(modules=["PyPred.Props.C01", "PyPred.Props.C01Total"], checker=(tier == "thorough"))
     cfg, detail = optcorr.detect_cfg()
     chk.extra["cfg"] = cfg
     chk.extra["cfg_detail"] = detail
